@@ -5,6 +5,7 @@
    parentheses and trailing semicolons are decided by the correspondence run (C14_partial). *)
 From Coq Require Import ZArith List Bool.
 From Ckl Require Import Prelude.PyPrelude Prelude.LexPrelude Gen.LexGen Model.LexRun Proofs.LexProofs Proofs.LexLayout Proofs.LexGaps Proofs.LexReach.
+From Ckl Require Import Model.ExprParse Proofs.ExprParseMore.
 Import ListNotations.
 Open Scope Z_scope.
 
@@ -68,3 +69,8 @@ Theorem C14_gap_premises_reachable : forall s, reach s -> literal_state (l_state
   ((l_state s =? 0) = true \/ scan_state (l_state s) = true) /\ tidy s /\ (rank s <= 2)%nat.
 Proof. exact reach_gap_premises. Qed.
 Print Assumptions C14_gap_premises_reachable.
+
+(* redundant parentheses around an expression of the operator core (Model/ExprParse.v, tied by checks/C02.py) do not change its tree *)
+Theorem C14_redundant_parentheses : forall e, wf e = true -> parse (paren (render e)) = Ok e [].
+Proof. exact parse_paren. Qed.
+Print Assumptions C14_redundant_parentheses.
